@@ -350,7 +350,7 @@ fn gen_egress(rs: u64, index: u64) -> Scenario {
     s
 }
 
-fn gen_ingress(rs: u64, _index: u64) -> Scenario {
+fn gen_ingress(rs: u64, index: u64) -> Scenario {
     let mut rng = Rng::new(rs, 0x81);
     let mut s = Scenario::new("C18", "ingress", rs);
     strict(&mut s);
@@ -374,6 +374,13 @@ fn gen_ingress(rs: u64, _index: u64) -> Scenario {
     let c_first_on_0 = rng.bool();
     s.op(t0 + 80, Op::PeerSend { p: if c_first_on_0 { 0 } else { 1 }, v4: true, sport: 5353, msg: announce(&if c_first_on_0 { c0.all() } else { c1.all() }), to: Dest::Mcast });
     s.op(t0 + 120, Op::PeerSend { p: if c_first_on_0 { 1 } else { 0 }, v4: true, sport: 5353, msg: announce(&if c_first_on_0 { c1.all() } else { c0.all() }), to: Dest::Mcast });
+    if index % 2 == 0 {
+        // D "split": PTR, SRV and TXT are learned on eth0, the only address of its host on eth1 (no PRNG draw here, so that the
+        // rest of the world is what it was before this instance was added)
+        let dd = instance_recs(ty, "split", "Split-Box.local.", 4, &["10.0.0.70"], &[], vec![0], 4500, 4500);
+        s.op(t0 + 160, Op::PeerSend { p: 0, v4: true, sport: 5353, msg: announce(&[dd.ptr.clone(), dd.srv.clone(), dd.txt.clone()]), to: Dest::Mcast });
+        s.op(t0 + 200, Op::PeerSend { p: 1, v4: true, sport: 5353, msg: announce(&dd.addrs), to: Dest::Mcast });
+    }
     // the event
     let te = 5200 + rng.below(2000);
     let what = ["gone-eth1", "gone-eth1", "disable-name-eth1", "disable-index-eth1", "disable-v6", "gone-v6-addr", "disable-addr-eth1"][rng.below(7) as usize];
@@ -631,6 +638,21 @@ fn judge_ingress(scn: &Scenario, tr: &Trace) -> Judged {
                 return j;
             }
         }
+        // I2b: the instance whose only address was learned there (its PTR, SRV and TXT on the link that stays) has nothing left
+        // to be resolved with: reported removed (or, should an address be left, resolved again with it)
+        if resolved_before("split") {
+            j.judgements += 1;
+            j.probe("split-instance-judged");
+            let again = evs.iter().any(|e| e.t >= te && e.t <= done && match &e.ev {
+                EvKind::Resolved(r) => r.fullname.starts_with("split") && r.addrs.iter().all(|a| a.intfs.iter().all(|(_, i)| *i == 2)),
+                EvKind::Removed(_, n) => n.starts_with("split"),
+                _ => false,
+            });
+            if !again {
+                j.fail("C18-R6", format!("interface eth1 disappeared at t={}: the instance whose only address was learned there (split) was neither reported removed nor resolved again by t={}; events since: {:?}", te, done, evs.iter().filter(|e| e.t >= te).map(|e| format!("{}:{:?}", e.t, e.ev)).take(4).collect::<Vec<_>>()));
+                return j;
+            }
+        }
         // the instance on the other link is untouched
         if evs.iter().any(|e| e.t >= te && e.t <= done && matches!(&e.ev, EvKind::Removed(_, n) if n.starts_with("only0"))) {
             j.fail("C18-R6", format!("interface eth1 disappeared at t={} and the instance learned on eth0 (only0) was reported removed", te));
@@ -660,7 +682,7 @@ impl Property for C18 {
         ]
     }
     fn expected_probes(&self) -> Vec<&'static str> {
-        vec!["selections-made", "interface-events", "question-on-enabled-channel", "question-on-disabled-channel", "gone-eth1", "disable-name-eth1", "disable-index-eth1", "disable-addr-eth1", "disable-v6", "gone-v6-addr"]
+        vec!["selections-made", "interface-events", "question-on-enabled-channel", "question-on-disabled-channel", "gone-eth1", "disable-name-eth1", "disable-index-eth1", "disable-addr-eth1", "disable-v6", "gone-v6-addr", "split-instance-judged"]
     }
     fn gen(&self, seed: u64, index: u64, _tier: Tier) -> Scenario {
         let rs = mix(seed, index);
